@@ -234,7 +234,7 @@ pub fn run(ctx: &Ctx) -> Finish {
     });
     // (b) best feasible sample
     let values = [-1.0, 2.0, 5.0];
-    let kmax = ctx.tier.pick(5, 7);
+    let kmax = ctx.tier.pick(6, 7);
     for k in 1..=kmax {
         let n = 9usize.pow(k as u32);
         ctx.par(n, |l, mut code| {
@@ -277,7 +277,7 @@ pub fn run(ctx: &Ctx) -> Finish {
     } else {
         // k = 6..8 structured: all-infeasible, single feasible at each position, all tied
         ctx.seq(|l| {
-            for k in 6..=8usize {
+            for k in 7..=8usize {
                 for sense in [SENSE_MIN, SENSE_MAX] {
                     for legacy in [false, true] {
                         check_case(l, &Case::Best { samples: vec![(2.0, 0); k], sense, legacy });
